@@ -287,6 +287,8 @@ def run(ck, only=None):
         special_cases(ck)
     if not only or only.get("part") == "nested":
         nested_definitions(ck)
+    if not only or only.get("part") == "optclosure":
+        option_dependent_closure(ck)
     if not only or only.get("part") == "anon":
         anon_cases(ck, only)
     if not only or only.get("part") == "ctor":
@@ -458,6 +460,45 @@ def nested_definitions(ck):
         if not ok:
             ck.violation(f"nested case={n} not-self-contained", {"part": "nested", "why": " | ".join(re.findall(r"error(?:\[E\d+\])?: .*", err)[:3])[:400]})
     ck.extra["nested_definition_runs"] = len(T)
+
+
+def option_dependent_closure(ck):
+    """Closures that depend on another option or on where a declaration lives: (a) with --no-size_t-is-usize the names size_t /
+    ssize_t are ordinary typedefs that an allowlisted item needs; (b) --allowlist-file together with --allowlist-item /
+    --allowlist-function / --allowlist-var for something declared in ANOTHER file (the union of the selections)."""
+    wd = os.path.join(ck.wd, "optclosure")
+    os.makedirs(wd, exist_ok=True)
+    open(os.path.join(wd, "util.h"), "w").write("typedef unsigned long size_t;\ntypedef long ssize_t;\ntypedef size_t count_t;\nstruct util_rec { size_t n; };\n"
+                                                "int util_fn(struct util_rec *r);\nextern ssize_t util_var;\nint util_other(void);\n")
+    open(os.path.join(wd, "api.h"), "w").write('#include "util.h"\nsize_t api_len(const char *s);\nssize_t api_read(count_t n);\nstruct api_buf { count_t used; };\nint api_plain(int);\n')
+    hp = os.path.join(wd, "api.h")
+    T = [("size_t-fn", ["--no-size_t-is-usize", "--allowlist-function", "api_len"], {"api_len", "size_t"}, {"api_plain", "util_other"}),
+         ("ssize_t-fn", ["--no-size_t-is-usize", "--allowlist-function", "api_read"], {"api_read", "ssize_t", "count_t", "size_t"}, {"api_plain"}),
+         ("size_t-type", ["--no-size_t-is-usize", "--allowlist-type", "api_buf"], {"api_buf", "count_t", "size_t"}, {"api_len"}),
+         ("size_t-default", ["--allowlist-function", "api_len"], {"api_len"}, {"api_plain"}),
+         ("size_t-norec", ["--no-size_t-is-usize", "--allowlist-function", "api_plain", "--no-recursive-allowlist"], {"api_plain"}, {"size_t", "ssize_t", "api_len"}),
+         ("file+item-fn", ["--allowlist-file", ".*api\\.h", "--allowlist-item", "util_fn"], {"api_len", "api_plain", "util_fn", "util_rec"}, {"util_other"}),
+         ("file+item-var", ["--allowlist-file", ".*api\\.h", "--allowlist-item", "util_var"], {"api_len", "util_var"}, {"util_other", "util_fn"}),
+         ("file+function", ["--allowlist-file", ".*api\\.h", "--allowlist-function", "util_fn"], {"api_len", "util_fn", "util_rec"}, {"util_other"}),
+         ("file+var", ["--allowlist-file", ".*api\\.h", "--allowlist-var", "util_var"], {"api_plain", "util_var"}, {"util_other"}),
+         ("file+type", ["--allowlist-file", ".*api\\.h", "--allowlist-type", "util_rec"], {"api_buf", "util_rec"}, {"util_other", "util_fn"})]
+    res = common.run_jobs([{"id": n, "args": [hp, "--formatter", "none", "--no-layout-tests"] + fl, "inventory": True} for n, fl, _, _ in T], wd)
+    for n, fl, must, mustnot in T:
+        r = res[n]
+        ck.count()
+        ck.nontriv(("optclosure", n))
+        if r["status"] != "ok":
+            ck.violation(f"option-closure case={n} generation-failed", {"part": "optclosure", "why": str(r)[:200]})
+            continue
+        names = set(emitted_names(r["inventory"]))
+        missing, extra = sorted(must - names), sorted(mustnot & names)
+        bp = os.path.join(wd, f"{n.replace('+', '_')}.rs")
+        open(bp, "w").write("#![allow(warnings)]\n" + r["text"])
+        ok, err = common.rustc_meta(bp)
+        if missing or extra or not ok:
+            ck.violation(f"option-closure case={n}", {"part": "optclosure", "why": f"flags {fl}: missing {missing}; wrongly emitted {extra}; " +
+                         ("compiles" if ok else "does not compile on its own: " + " | ".join(re.findall(r"error(?:\[E\d+\])?: .*", err)[:2]))[:300]})
+    ck.extra["option_dependent_closure_runs"] = len(T)
 
 
 def file_cases(ck, gs, only=None):
